@@ -364,11 +364,59 @@ def rule_r4(chk, F):
             r.violation(oom + ":not-oom-trap", "must end in trap(Trap::OOM)", oom)
 
 
+def rule_r5(chk, F):
+    r = chk.rule("C13.R5", "a frame that is allocated before the stack limit is checked must have a compile-time "
+                           "bounded size (below the unmapped margin), or the limit must be tested against SP minus the "
+                           "frame size before SP moves / the new frame must be probed: otherwise the overflow slow "
+                           "path's own `call` pushes into unmapped memory")
+    c = F.crate("dora_cannon_compiler")
+    # cannon: is self.framesize ever compared with a constant / asserted before emit_prolog?
+    bounded = []
+    for p, b in c.hir.items():
+        if "CannonCodeGen" not in p:
+            continue
+        for n in hirq.walk(b["body"]):
+            if n[0] == "bin" and n[1] in ("Lt", "Le", "Gt", "Ge"):
+                txt = repr(n)
+                if "'framesize'" in txt or "'stacksize'" in txt:
+                    bounded.append(p)
+    pro = c.hir_fn("MacroAssembler>::prolog") or next((b for q, b in c.hir.items() if q.endswith("MacroAssembler>::prolog")), None)
+    sub_unconditional = False
+    if r.anchor("x64 MacroAssembler::prolog", pro):
+        subs = [cs for cs in hirq.calls(pro["body"]) if cs.is_method and cs.name.startswith("subq")]
+        sub_unconditional = bool(subs)
+    r.instance("cannon:frame-size-bound", sample={"bound_checks_in": sorted(set(bounded))[:3],
+                                                  "prolog_lowers_sp": sub_unconditional})
+    if sub_unconditional and not bounded:
+        r.violation("dora_cannon_compiler::codegen::CannonCodeGen:frame-size-unbounded-before-stack-check",
+                    "the baseline prologue lowers SP by an unbounded frame size and only then compares SP with the "
+                    "stack limit; the overflow slow path then calls the trampoline at the lowered SP. A function whose "
+                    "frame exceeds the unmapped margin below the limit segfaults instead of trapping "
+                    "(an ≈ 11 MiB frame: exit 139 on main and on spawned threads)", pro["file"] if pro else "")
+    D = F.dora()
+    t = D.get("pkgs/boots/codegen.dora")
+    if r.anchor("pkgs/boots/codegen.dora", t):
+        gc = [f for f in doraq.functions(t, "pkgs/boots/codegen.dora") if f.name == "generate_code"]
+        if gc:
+            cmp_found = False
+            for n in doraq.walk(gc[0].body):
+                if n[0] == "BIN_EXPR":
+                    tx = doraq.text(n)
+                    if "stack_size" in tx and any(op in tx for op in ("<=", "<", ">")) and ">=0" not in tx.replace(" ", ""):
+                        cmp_found = True
+            r.instance("boots:frame-size-bound", sample={"bounded": cmp_found})
+            if not cmp_found:
+                r.violation("pkgs/boots/codegen.dora::generate_code:frame-size-unbounded-before-stack-check",
+                            "the optimizing compiler's prologue has the same shape: emit_prolog(stack_size) lowers SP "
+                            "by an unbounded amount before emit_stack_limit_check()", gc[0].where())
+
+
 def run(chk, F):
     rule_r1(chk, F)
     rule_r2(chk, F)
     rule_r3(chk, F)
     rule_r4(chk, F)
+    rule_r5(chk, F)
     chk.assumptions += [
         "std::thread::spawn's default stack is 2 MiB (std documentation; RUST_MIN_STACK unset)",
         "that the safety margin of the stack budget covers every native callee is a run-time quantity and is not "
